@@ -433,7 +433,11 @@ func ruleR05_2(p *Program, r *Report) {
 	}
 	// after a Peek the bytes still held in the bit buffer are skipped
 	ok := false
-	for _, b := range fn.Blocks {
+	var skipBlocks []*ssa.BasicBlock
+	for _, g := range methods { // step itself or a helper on the same receiver (the refill may be extracted)
+		skipBlocks = append(skipBlocks, g.Blocks...)
+	}
+	for _, b := range skipBlocks {
 		for _, in := range b.Instrs {
 			st, isSt := in.(*ssa.Store)
 			if !isSt {
